@@ -75,15 +75,25 @@ FreshTestZip == [call |-> "testzip", ok |-> a.damaged = {}, out |-> {}]
 LastPos(f, S) == LET ps == { a.members[i].pos : i \in { j \in S : a.members[j].folder = f } } IN
                  IF ps = {} THEN 0 ELSE CHOOSE m \in ps : \A q \in ps : q <= m
 
-DecodeFolder(f, S, upto) ==
-  LET start == IF dec[f] = -1 THEN 0 ELSE dec[f] IN
-  IF upto = 0 THEN <<TRUE, dec[f]>>                      \* folder skipped
+(* Definitions that a configuration may override (CONSTANT X <- Y):                                                        *)
+(* ExtractResets  extract()/extractall() drop the cached decoders themselves before decoding (repaired tree: TRUE; the tree   *)
+(*                as found continued with whatever the last call had left: a second extract() of a solid folder delivered    *)
+(*                the bytes of OTHER members under the requested names, silently where only a folder CRC or none is stored)   *)
+(* NeedReset      callers put reset() in front of an extract that follows a decoding call (the property's quantifier;        *)
+(*                with ExtractResets nothing depends on it any more)                                                         *)
+ExtractResets == TRUE
+NeedReset == FALSE
+
+DecodeFolder(d, f, S, upto) ==
+  LET start == IF d[f] = -1 THEN 0 ELSE d[f] IN
+  IF upto = 0 THEN <<TRUE, d[f]>>                      \* folder skipped
   ELSE IF start # 0 THEN <<FALSE, start>>                \* stale decoder: wrong bytes -> CRC / decoder error
   ELSE IF f \in a.damaged THEN <<FALSE, upto>>
   ELSE <<TRUE, upto>>
 
 DoExtract(S, all) ==
-  LET r == [f \in 1..NFolders |-> DecodeFolder(f, S, IF all THEN Cardinality(FolderMembers(f)) ELSE LastPos(f, S))]
+  LET d0 == IF ExtractResets THEN [f \in 1..NFolders |-> -1] ELSE dec
+      r == [f \in 1..NFolders |-> DecodeFolder(d0, f, S, IF all THEN Cardinality(FolderMembers(f)) ELSE LastPos(f, S))]
       ok == \A f \in 1..NFolders : r[f][1]
   IN  /\ dec' = [f \in 1..NFolders |-> r[f][2]]
       /\ res' = [call |-> "extract", ok |-> ok, out |-> IF ok THEN S ELSE {}]
@@ -100,14 +110,14 @@ GetInfo == Pure("getinfo")
 
 (* extract(targets=T, recursive) / extractall(): allowed by the quantifier only when no decoding call preceded without reset *)
 Extract(T, recursive) ==
-  /\ ncalls < MaxCalls /\ ncalls' = ncalls + 1 /\ ~dirty
+  /\ ncalls < MaxCalls /\ ncalls' = ncalls + 1 /\ (NeedReset => ~dirty)
   /\ targets' = [i \in Idx |-> i \in Selected(T, recursive)]
   /\ DoExtract(Selected(T, recursive), FALSE)
   /\ dirty' = TRUE
   /\ UNCHANGED <<a, disk>>
 
 ExtractAll ==
-  /\ ncalls < MaxCalls /\ ncalls' = ncalls + 1 /\ ~dirty
+  /\ ncalls < MaxCalls /\ ncalls' = ncalls + 1 /\ (NeedReset => ~dirty)
   /\ targets' = [i \in Idx |-> TRUE]
   /\ DoExtract(Idx, FALSE)
   /\ dirty' = TRUE
